@@ -50,6 +50,9 @@ func c07Emit(kind, class string, must bool, pid, call, bind, src string) bool {
 	ast, err := c07Parse(src)
 	if err != nil || ast == nil {
 		fmt.Fprintf(os.Stderr, "c07 gen: does not parse (%s %s): %v\n", kind, class, err)
+		if d := os.Getenv("VH_C07_DUMP_BAD"); d != "" {
+			os.WriteFile(d, []byte(src), 0o644)
+		}
 		return false
 	}
 	m := "0"
@@ -69,6 +72,15 @@ func c07Gen(tier string, rng *hx.Rng) {
 	stats := map[string]int{}
 	for _, src := range c07Corpus {
 		c07Emit("corpus", "corpus", false, "", "", "", src)
+	}
+	nchain := 40
+	if tier == "thorough" {
+		nchain = 300
+	}
+	for _, src := range c07ChainPrograms(rng, nchain, c07StageCmd) {
+		if c07Emit("corpus", "chain", false, "", "", "", src) {
+			stats["chain_out_of_order"]++
+		}
 	}
 	for i := 0; i < nprog; i++ {
 		g := &c7gen{r: rng, stats: stats}
